@@ -1,2 +1,88 @@
-(* C12 — placeholder while the model is being tied; theorems follow. *)
-From CL Require Import Model.Pattern Model.Matcher.
+(* C12 — pattern expansion, matching and prefix are mutually consistent.
+   Same model as C11 (Model/Pattern.v, Model/Matcher.v); the grammar [simple]
+   is the one of Proofs/MatcherSpec.v. *)
+From Coq Require Import NArith List Bool Arith Lia.
+From CL Require Import Base.Sx Base.Res Base.Str Regex.Rx Regex.RxLemmas Model.Pattern Model.Matcher
+  Proofs.MatcherSpec Proofs.MatcherSound Proofs.MatcherExpand Proofs.PatternFuel.
+Import ListNotations.
+
+(* Every path a matcher matches starts with the matcher's prefix (whenever the
+   prefix is defined: it raises for a pattern whose prefix part needs a star). *)
+Theorem C12_prefix : forall M path d pre, simple M ->
+  match_ M path = Ok (Some d) -> prefix M = Ok pre -> starts_with pre path = true.
+Proof. exact match_starts_with_prefix. Qed.
+
+(* A single star never matches across a directory separator. *)
+Theorem C12_star_segment : forall M path d k, simple M -> match_ M path = Ok (Some d) ->
+  In (NStar k) (p_nodes (m_pat M)) ->
+  exists v, lookup (star_name k) d = Some (Some v) /\ has_char c_slash v = false.
+Proof.
+  intros M path d k HS Hm Hin. pose proof (match_kinds_ok M path d HS Hm) as Hk.
+  unfold kinds_ok in Hk. rewrite Forall_forall in Hk. exact (Hk _ Hin).
+Qed.
+
+(* A double star matches nothing (its group takes no part), or a non-empty text
+   followed by its suffix: whole directories d1/.../dk/ for the suffix "/". *)
+Theorem C12_starstar_dirs : forall M path d k suffix, simple M ->
+  match_ M path = Ok (Some d) -> In (NStarstar k suffix) (p_nodes (m_pat M)) ->
+  lookup (star_name k) d = Some None \/
+  exists b, b <> [] /\ lookup (star_name k) d = Some (Some (b ++ suffix)).
+Proof.
+  intros M path d k suffix HS Hm Hin. pose proof (match_kinds_ok M path d HS Hm) as Hk.
+  unfold kinds_ok in Hk. rewrite Forall_forall in Hk. exact (Hk _ Hin).
+Qed.
+
+(* Nothing but complete paths match — for EVERY pattern and environment, not
+   only the grammar: the compiled regular expression consumed the whole path,
+   or all of it but one final newline (CPython's `$`; stated, not hidden). *)
+Theorem C12_whole_path : forall e p r names path x,
+  regex_of_pattern e p = Ok (r, names) -> rmatch r path 0 = MSome x ->
+  m_end x = length path \/ (S (m_end x) = length path /\ skipn (m_end x) path = [10%N]).
+Proof. exact match_whole_path. Qed.
+
+(* the caveat is real: a/*.x matches "a/b.x\n" with s1 = "b" *)
+Example C12_whole_path_newline_example : exists M d,
+  mk_matcher (of_ascii [97;47;42;46;120]) [] None = Ok M /\
+  match_ M (of_ascii [97;47;98;46;120;10]) = Ok (Some d) /\
+  lookup (star_name 1) d = Some (Some (of_ascii [98])).
+Proof.
+  destruct (mk_matcher (of_ascii [97;47;42;46;120]) [] None) as [M|] eqn:E; [|vm_compute in E; discriminate].
+  vm_compute in E. inversion E; subst M. eexists. eexists. split; [reflexivity|].
+  split; vm_compute; reflexivity.
+Qed.
+
+(* Expansion terminates whatever self- or mutual references the environment
+   contains, as long as no value mentions {android_locale}: every fuel above
+   |env| + 1 suffices, the model's own fuel is above it, and any larger fuel
+   gives the same answer. *)
+Theorem C12_expand_terminates : forall e,
+  env_android_free e = true ->
+  (forall fuel rm n, length e + 1 < fuel -> expand_node fuel e rm n <> Raise OutOfFuel) /\
+  (forall fuel rm n, length e + 1 < fuel ->
+     expand_node fuel e rm n = expand_node (length e + 2) e rm n) /\
+  (forall rm p, expand_pattern e rm p <> Raise OutOfFuel).
+Proof.
+  intros e He. split; [|split].
+  - intros. apply expand_node_terminates; auto.
+  - intros. apply expand_node_enough; auto.
+  - intros. apply expand_pattern_terminates; auto.
+Qed.
+
+(* self-reference and mutual reference: the expansion is cut at the variable
+   that would recur (MissingEnvironment stops the iteration) *)
+Example C12_expand_cut_example :
+  (* a/{v}/b with v = "{v}x"  ->  "a/" ;   {m1} with m1 = a{m2}, m2 = b{m1}  ->  "" *)
+  (do M <- mk_matcher (of_ascii [97;47;123;118;125;47;98])
+             [(of_ascii [118], of_ascii [123;118;125;120])] None; str_of M)
+    = Ok (of_ascii [97;47]) /\
+  (do M <- mk_matcher (of_ascii [123;109;49;125])
+             [(of_ascii [109;49], of_ascii [97;123;109;50;125]);
+              (of_ascii [109;50], of_ascii [98;123;109;49;125])] None; str_of M)
+    = Ok [].
+Proof. split; vm_compute; reflexivity. Qed.
+
+(* ... but a `locale` defined through {android_locale} recurses for ever
+   (known finding expand-android-locale-cycle: RecursionError in the implementation) *)
+Theorem C12_expand_terminates_android_cycle_refuted : exists e n,
+  forall fuel rm, expand_node fuel e rm n = Raise OutOfFuel.
+Proof. exists cyclic_env, (NAndroid false). exact android_cycle. Qed.
